@@ -337,6 +337,21 @@ def run(ck):
     okrm = len(rm_) == 1 and bool(adders) and all(_runs_after(dmf, a_, rm_[0]) and not _runs_after(dmf, rm_[0], a_) for a_ in adders)
     ck.ob('PROV-edges', dmm.loc(rm_[0]) if rm_ else dmm.loc(dmf), okrm, 'the particles deleted by a modification mapping are removed once, after every statement that adds edges to the '
           'output ({} edge-adding statement(s))'.format(len(adders)), key='PROV-edges|removed-after-edges')
+    # a particle that a modification mapping *adds* (a PTM atom of its target that no placed block provides) belongs to the residue it modifies: it gets that
+    # residue's number, and the next placement -- whose residues are numbered from the receiver's last atom (merge_molecule) -- continues from it.  F28 (known):
+    # the new particle is created from the modification's node attributes alone, without a resid
+    amm = dmm.func('apply_mod_mapping')
+    ck.analysed(dmm, amm)
+    new_nodes = [c_ for c_ in walk_local(amm) if isinstance(c_, ast.Call) and call_attr(c_) == 'add_node' and u(c_.func.value) == 'graph_out' and
+                 any(k_.arg is None and 'modification.nodes[' in u(k_.value) for k_ in c_.keywords)]
+    ck.need(len(new_nodes) == 1, 'apply_mod_mapping: the creation of a particle the modification adds (graph_out.add_node(out_idx, **modification.nodes[..])) was not found')
+    nn = new_nodes[0]
+    idx_txt = u(nn.args[0])
+    gets_resid = any(k_.arg == 'resid' for k_ in nn.keywords) or \
+        any(isinstance(s_, ast.Assign) and any(isinstance(t_, ast.Subscript) and try_fold(t_.slice, default=None) == 'resid' and idx_txt in u(t_.value) and 'graph_out' in u(t_.value)
+                                               for t_ in s_.targets) for s_ in walk_local(amm))
+    ck.ob('MPT-renumber', dmm.loc(nn), gets_resid, 'a particle added by a modification mapping is given a residue number (it is the last atom of the output when the next block is '
+          'merged in, and merge_molecule continues the numbering from the last atom): `{}`'.format(u(nn)[:70]), key='MPT-renumber|new-particle-resid')
     from .c12 import merge_rules
     merge_rules(ck)
     shared.no_monomorphism(ck, ['vermouth/map_parser.py', 'vermouth/processors/do_mapping.py', 'vermouth/graph_utils.py'])
